@@ -2612,6 +2612,12 @@ fn unpack_package(tarball: &File, unpack_dir: &Path) -> Result<(), UnpackError> 
             });
         }
 
+        // Never unpack a `.cargo-ok` marker shipped inside the archive: the
+        // marker must only appear once the whole archive has been unpacked.
+        if entry_path.file_name().map_or(false, |name| name == CARGO_OK_FILE) {
+            continue;
+        }
+
         entry
             .unpack_in(parent)
             .map_err(|error| UnpackError::Unpack {
